@@ -192,6 +192,7 @@ def main(argv):
     prop, subname, shard, ncases, seed, budget, out = argv[:7]
     tier = argv[7] if len(argv) > 7 else 'quick'
     os.environ['VF_TIER'] = tier
+    os.environ['VF_SHARD'] = str(shard)
     try:
         res = run_shard(prop, subname, int(shard), int(ncases), int(seed),
                         float(budget), tier)
